@@ -347,6 +347,62 @@ def opCH (args obs : List String) : P String := do
     pure (functional [showSigned d.signed, toString d.nword, toString d.nfrac, showList toString (res.map (·.2))] obs)
   | _ => throw "CH: arity"
 
+def showCmp (rs : List CmpResult) : List String :=
+  [showList showBool (rs.map (·.lt)), showList showBool (rs.map (·.le)), showList showBool (rs.map (·.eq)),
+   showList showBool (rs.map (·.ne)), showList showBool (rs.map (·.gt)), showList showBool (rs.map (·.ge))]
+
+/-- `CMP <kind=ff|fn|nf> <fx> <fy> [a..] [b..] | [lt] [le] [eq] [ne] [gt] [ge]`
+`ff`: Fxp ∘ Fxp; `fn`: Fxp ∘ plain number (the value of `(fy, b)`); `nf`: plain number ∘ Fxp. -/
+def opCMP (args obs : List String) : P String := do
+  match args with
+  | [_kind, sx, nx, fx, sy, ny, fy, as, bs] =>
+    let x ← pFmt sx nx fx
+    let y ← pFmt sy ny fy
+    let as ← pList pInt as
+    let bs ← pList pInt bs
+    match bcast (cmpFxp x y) as bs with
+    | none => throw "CMP: shapes"
+    | some rs => pure (functional (showCmp rs) obs)
+  | _ => throw "CMP: arity"
+
+/-- `NC <mode> <f> [codes] | [get_val] [astype float] [astype int] [bool] [raw] [uraw]` -/
+def opNC (args obs : List String) : P String := do
+  match args with
+  | [_mode, s, n, f, cs] =>
+    let fmt ← pFmt s n f
+    let cs ← pList pInt cs
+    let vals := showList showRat (cs.map (valueOf fmt))
+    pure (functional [vals, vals, showList toString (cs.map (astypeInt fmt)), showList showBool (cs.map (toBool fmt)),
+                      showList toString cs, showList toString (cs.map (urawM fmt))] obs)
+  | _ => throw "NC: arity"
+
+/-- `DR <configured notation> <fmt> <complex> | dtype get_dtype('Q') get_dtype('fxp')` -/
+def opDR (args obs : List String) : P String := do
+  match args with
+  | [cfg, s, n, f, cx] =>
+    let fmt ← pFmt s n f
+    let cx ← pBool cx
+    let nt ← match cfg with
+      | "fxp" => pure Notation.fxp
+      | "Q" => pure Notation.Q
+      | _ => throw "DR: notation"
+    pure (functional [String.ofList (renderDtype nt fmt cx), String.ofList (renderDtype .Q fmt cx),
+                      String.ofList (renderDtype .fxp fmt cx)] obs)
+  | _ => throw "DR: arity"
+
+/-- `DP <route> <string> | s n f cx` — parse a format string (constructor, resize, fxp_sum routes).
+A string no regex matches, or a negative word length, is an error. -/
+def opDP (args obs : List String) : P String := do
+  match args with
+  | [route, str] =>
+    match parseFormatStr str.toList with
+    | none => pure (reply (isExc obs) (isExc obs) ["ERR"])
+    | some (sg, w, f, cx) =>
+      if w < 0 ∨ (sg ∧ w = 0) then pure (reply (isExc obs) (isExc obs) ["ERR"]) else
+      let cxTok := if route == "fxpsum" then "-" else showBool cx
+      pure (functional [showSigned sg, toString w, toString f, cxTok] obs)
+  | _ => throw "DP: arity"
+
 /-- `UN <op=neg|pos|abs> <fx> [codes] | s n f [codes]` — unary operators build a default-config object. -/
 def opUN (args obs : List String) : P String := do
   match args with
@@ -377,6 +433,10 @@ def dispatch (op : String) (args obs : List String) : P String :=
   | "AC" => opAC args obs
   | "DV" => opDV args obs
   | "CV" => opCV args obs
+  | "CMP" => opCMP args obs
+  | "NC" => opNC args obs
+  | "DR" => opDR args obs
+  | "DP" => opDP args obs
   | "CH" => opCH args obs
   | _ => throw s!"unknown op {op}"
 
